@@ -32,8 +32,12 @@ thread_local! {
     };
 }
 
+/// histories started by all workers (each has its own case seed / symbol sequence / scenario name)
+pub static HISTORIES: AtomicU64 = AtomicU64::new(0);
+
 /// the history this thread is about to step (stored once per history)
 pub fn set_history(replay: Value) {
+    HISTORIES.fetch_add(1, Ordering::Relaxed);
     BEAT.with(|b| b.what.lock().unwrap().1 = replay);
 }
 
@@ -108,15 +112,21 @@ pub fn start(block_secs: u64, on_halt: impl Fn(Verdict) + Send + 'static) {
 
 /// Evidence document for a run that ended in the supervisor (the workers' statistics are out of reach)
 pub fn evidence(property: &str, tier: &str, seed: u64, level: &str, wall_s: f64, violations: u64, v: &Verdict) -> Value {
+    let histories = HISTORIES.load(Ordering::Relaxed);
+    let steps: u64 = registry().lock().map(|r| r.iter().map(|b| b.steps.load(Ordering::Relaxed)).sum()).unwrap_or(0);
+    // (a replay runs the one stored history: that is not an exploration)
+    let level = if histories < 2 { "other" } else { level };
     json!({
         "property_id": property,
         "tier": tier,
         "seed": seed,
         "level": level,
         "coverage": {
-            "evaluations": 1,
-            "distinct_nontrivial": 1,
-            "rule": "run ended by the blocked-step supervisor: only the history that blocked the router is reported (the other workers' counts are not available)",
+            "evaluations": histories,
+            "distinct_nontrivial": histories,
+            "router_steps": steps,
+            "explanation": "run ended by the blocked-step supervisor: one history blocked the router for good",
+            "rule": "histories started by all workers until the supervisor ended the run (each has its own case seed, symbol sequence or scenario name; every one drives the router through at least a connect); the per-oracle counts of the workers are out of reach because the blocked worker cannot be joined",
             "samples": [ {"blocked_router_step": v.kind, "blocked_for_s": v.blocked_for_s, "history": v.replay} ],
         },
         "assumptions": ["a harness-driven router step does no I/O: a thread sleeping inside it without consuming CPU time is blocked"],
